@@ -12,6 +12,7 @@ Outside the fragment: Unsupported (-> UNDECIDED).
 from __future__ import annotations
 
 import ast
+import re
 from typing import Any
 
 from ..index import FuncInfo, SourceIndex, dotted
@@ -119,6 +120,28 @@ class PyEval(MiniEval):
         self.max_depth = max_depth
         self.depth = 0
         self.trace: list[str] = []
+
+    BUILTIN_EXCEPTIONS = frozenset({
+        "BaseException", "Exception", "ValueError", "TypeError", "KeyError", "IndexError", "AttributeError", "AssertionError", "RuntimeError",
+        "NotImplementedError", "StopIteration", "LookupError", "ArithmeticError", "ZeroDivisionError", "OverflowError", "NameError", "OSError",
+        "ImportError", "RecursionError", "UnicodeDecodeError", "SyntaxError"})
+
+    def exception_class(self, func: ast.expr) -> str | None:
+        """The class name if `func` names an exception class (a builtin one, or a repository class derived from one)."""
+        d = dotted(func)
+        if not d:
+            return None
+        last = d.split(".")[-1]
+        if d in self.BUILTIN_EXCEPTIONS:
+            return d
+        c = self.idx.resolve_class_name(self.module, d)
+        seen = 0
+        while c is not None and seen < 12:
+            seen += 1
+            if any(b.split(".")[-1] in self.BUILTIN_EXCEPTIONS for b in c.base_names):
+                return last
+            c = c.bases[0] if c.bases else None
+        return None
 
     # ---- names / attributes
     def name(self, ident: str, env: dict) -> Any:
@@ -674,6 +697,9 @@ class PyEval(MiniEval):
                         cls = ast.unparse(helper.node.returns).strip("'\"").split(".")[-1].split("[")[0]
                 elif isinstance(st.exc, ast.Name) and isinstance(env.get(st.exc.id), Tok) and env[st.exc.id].attrs.get("__class__"):
                     cls = env[st.exc.id].attrs["__class__"]
+                elif isinstance(st.exc, ast.Name) and isinstance(env.get(st.exc.id), Opaque) and re.match(r"^<?[A-Za-z_][\w.]*\(", env[st.exc.id].what or ""):
+                    # bound to a call that could not be evaluated (`err = self._error(...)` in lenient mode): the callee's name
+                    cls = re.match(r"^<?([A-Za-z_][\w.]*)\(", env[st.exc.id].what).group(1).split(".")[-1]
                 return ("raise", cls or ast.unparse(st)[:80])
             if getattr(self, "lenient", False) and isinstance(st, (ast.Assign, ast.AnnAssign, ast.AugAssign, ast.Expr)) \
                     and not (isinstance(st, ast.Expr) and isinstance(st.value, ast.Call) and self.is_followed_call(st.value, env)):
@@ -1130,6 +1156,16 @@ class PyEval(MiniEval):
             return sum(A()[0])
         if fn == "range" and node.args and all(isinstance(x, int) for x in A()) and abs(A()[-1]) < 10000:
             return list(range(*A()))
+        # an exception object: `err = GuppyError(diag)` ... `raise err`
+        exc_cls = self.exception_class(node.func)
+        if exc_cls is not None:
+            vals_: list = []
+            for a_ in node.args:
+                try:
+                    vals_.append(self.ev(a_, env))
+                except Unsupported:
+                    vals_.append(Opaque(ast.unparse(a_)[:40]))
+            return Tok(f"exc:{exc_cls}", __class__=exc_cls, __exception__=True, args=vals_)
         # a callable VALUE: a token that models a callable object (`__call__` handler), or a function object of the interpreted
         # code that was obtained from an expression (`table[k](x)`, `obj.__getattr__(name)(x)`)
         if isinstance(node.func, (ast.Call, ast.Subscript)) or (isinstance(node.func, ast.Name) and isinstance(env.get(node.func.id), Tok)):
